@@ -10,7 +10,7 @@ use crate::{
         parser::{
             static_analysis::run_static_analysis_on_node,
             stringify::{
-                rename_sheet_in_node, to_english_string, to_localized_string, to_rc_format,
+                rename_sheet_in_node, to_english_string, to_rc_format,
             },
             Node, Parser,
         },
@@ -478,7 +478,11 @@ impl<'a> Model<'a> {
         let old_name = self.workbook.worksheet(sheet_index)?.get_name();
 
         // Parse all formulas with the old name
-        // All internal formulas are R1C1
+        // All internal formulas are R1C1, in English: parse them with the English
+        // language and locale whatever the active ones are
+        let (active_locale, active_language) = (self.locale, self.language);
+        self.parser.set_locale(get_default_locale());
+        self.parser.set_language(get_default_language());
         self.parser.set_lexer_mode(LexerMode::R1C1);
 
         for worksheet in &mut self.workbook.worksheets {
@@ -509,9 +513,20 @@ impl<'a> Model<'a> {
             column: 1,
         };
         for defined_name in &mut self.workbook.defined_names {
-            let mut t = self.parser.parse(&defined_name.formula, cell_reference);
+            // Defined-name formulas are stored in English and may carry a leading '='
+            let had_equals = defined_name.formula.starts_with('=');
+            let body = defined_name
+                .formula
+                .strip_prefix('=')
+                .unwrap_or(&defined_name.formula);
+            let mut t = self.parser.parse(body, cell_reference);
             rename_sheet_in_node(&mut t, sheet_index, new_name);
-            let formula = to_localized_string(&t, cell_reference, self.locale, self.language);
+            let english = to_english_string(&t, cell_reference);
+            let formula = if had_equals {
+                format!("={english}")
+            } else {
+                english
+            };
             defined_names.push(DefinedName {
                 name: defined_name.name.clone(),
                 formula,
@@ -519,6 +534,8 @@ impl<'a> Model<'a> {
             });
         }
         self.workbook.defined_names = defined_names;
+        self.parser.set_locale(active_locale);
+        self.parser.set_language(active_language);
 
         // Update the name of the worksheet
         self.workbook.worksheet_mut(sheet_index)?.set_name(new_name);
